@@ -84,6 +84,13 @@ def gen_plan(rng, i: int, tier: str) -> dict:
         fl = rng.choice(("sync", "async"))
         for _ in range(min(n, 8)):
             ops.append({"op": "protect", "fl": fl, "sid": offline.SID_A, "rk": rng.choice((0, None)), "net": "online", "data": data, "same_data": True})
+    elif kind == "identical-online-pub" and i % 6 == 0:
+        # ECDH_P521 with its 521-bit (not byte-aligned) private key: most protects fail with a range error on the current tree,
+        # which is outside the claimed configurations; whatever succeeds must still use fresh ephemeral keys
+        plan["root_keys"] = [[i % 5, hash_name, "ECDH_P521"]]
+        plan["kind"] = "p521"
+        for _ in range(40 if tier == "quick" else 300):
+            ops.append({"op": "protect", "fl": "sync", "sid": offline.SID_B, "rk": None, "net": "online", "data": 4, "same_data": True})
     elif kind == "identical-online-pub":
         fl = rng.choice(("sync", "async"))
         for _ in range(min(n, 6)):
